@@ -83,9 +83,10 @@ class Enc:
 def txt_chunk(ch):
     """ch = [key, value_bytes_hex or None]; None => attribute present without '='."""
     k, v = ch
+    kb = bytes.fromhex(k[4:]) if k.startswith("hex:") else k.encode("ascii")     # "hex:..." = raw key bytes
     if v is None:
-        return k.encode("ascii")
-    return k.encode("ascii") + b"=" + bytes.fromhex(v)
+        return kb
+    return kb + b"=" + bytes.fromhex(v)
 
 
 def encode_msg(msg):
